@@ -48,7 +48,9 @@ def boot():
     os.environ.setdefault("MKL_NUM_THREADS", "1")
     if not os.path.isdir(os.path.join(REPO, "nflows")):
         raise HarnessError("no nflows package under VERIF_REPO=%s" % REPO)
-    sys.path.insert(0, REPO)
+    # after the harness root (sys.path[0]), so that a top-level `checks` or `sim` package inside the repo cannot shadow
+    # the harness; nflows itself only exists under REPO
+    sys.path.insert(1, REPO)
     sys.dont_write_bytecode = True
     import warnings
 
